@@ -7,7 +7,7 @@ import CelloProofs.Lemmas.FmtGrammar
 
 namespace Cello.Fmt
 
-variable (prim : Str → PVal → Str) (shw : Obj → Out → Out × Outcome)
+variable (prim : Prim) (shw : Obj → Out → Out × Outcome)
 
 /-- the dispatch `if`s that fire, run in order -/
 def runKinds : List Kind → Str → Obj → Out → Out × Outcome
@@ -16,6 +16,12 @@ def runKinds : List Kind → Str → Obj → Out → Out × Outcome
     match action prim shw k buf a o with
     | (o', .ok) => runKinds r buf a o'
     | bad => bad
+
+theorem runKinds_single (k : Kind) (buf : Str) (a : Obj) (o : Out) :
+    runKinds prim shw [k] buf a o = action prim shw k buf a o := by
+  simp only [runKinds]
+  rcases action prim shw k buf a o with ⟨o', oc⟩
+  cases oc <;> rfl
 
 theorem dispatch_eq_runKinds (c : Char) (buf : Str) (a : Obj) : ∀ (d : List (Matcher × Kind)) (o : Out),
     dispatch prim shw d c buf a o = runKinds prim shw ((d.filter fun mk => mk.1.hit c).map (·.2)) buf a o := by
@@ -61,7 +67,7 @@ def expectCalls (showCalls : Obj → List Call) (args : List Obj) : List Seg →
 theorem dispatch_now_typed (ht : (∀ c ∈ intConvs, firing cfgNow c = [.cint]) ∧ (∀ c ∈ fltConvs, firing cfgNow c = [.cfloat]) ∧
       firing cfgNow 'c' = [.cint] ∧ firing cfgNow 's' = [.cstr] ∧ firing cfgNow 'p' = [.obj] ∧ firing cfgNow '$' = [.show])
     (c : Char) (buf : Str) (a : Obj) (v : PVal) (hv : specVal c a = some v) (o : Out) :
-    dispatch prim shw cfgNow.disp c buf a o = (o.formatTo prim buf v, .ok) := by
+    dispatch prim shw cfgNow.disp c buf a o = o.call prim buf v := by
   rw [dispatch_eq_runKinds]
   change runKinds prim shw (firing cfgNow c) buf a o = _
   unfold specVal at hv
@@ -71,19 +77,19 @@ theorem dispatch_now_typed (ht : (∀ c ∈ intConvs, firing cfgNow c = [.cint])
       rcases hc with hc | hc
       · exact ht.1 c hc
       · subst hc; exact ht.2.2.1
-    cases a <;> simp_all [runKinds, action, cInt]
+    cases a <;> simp_all [runKinds_single, action, cInt]
   · split at hv
     · rename_i hc
       have hf := ht.2.1 c hc
-      cases a <;> simp_all [runKinds, action, cFloat]
+      cases a <;> simp_all [runKinds_single, action, cFloat]
     · split at hv
       · rename_i hc; subst hc
         have hf := ht.2.2.2.1
-        cases a <;> simp_all [runKinds, action, cStr]
+        cases a <;> simp_all [runKinds_single, action, cStr]
       · split at hv
         · rename_i hc; subst hc
           have hf := ht.2.2.2.2.1
-          simp_all [runKinds, action]
+          simp_all [runKinds_single, action]
         · simp at hv
 
 theorem dispatch_now_show (hf : firing cfgNow '$' = [.show]) (buf : Str) (a : Obj) (o : Out) (cs : List Call)
@@ -98,21 +104,23 @@ theorem refRun_typed (ht : (∀ c ∈ intConvs, firing cfgNow c = [.cint]) ∧ (
       firing cfgNow 'c' = [.cint] ∧ firing cfgNow 's' = [.cstr] ∧ firing cfgNow 'p' = [.obj] ∧ firing cfgNow '$' = [.show])
     (showCalls : Obj → List Call) (hs : ∀ a o, shw a o = (emitAll prim o (showCalls a), .ok)) (args : List Obj) :
     ∀ (segs : List Seg) (k : Nat) (cs : List Call) (o : Out), expectCalls showCalls args segs k = some cs →
-      refRun cfgNow prim shw args segs k o = (emitAll prim o cs, .ok) := by
+      AllAcc prim cs → refRun cfgNow prim shw args segs k o = (emitAll prim o cs, .ok) := by
   intro segs
   induction segs with
-  | nil => intro k cs o h; simp [expectCalls] at h; subst h; rfl
+  | nil => intro k cs o h _; simp [expectCalls] at h; subst h; rfl
   | cons s r ih =>
-    intro k cs o h
+    intro k cs o h hacc
     cases s with
     | lit s =>
       simp only [expectCalls, Option.map_eq_some_iff] at h
       obtain ⟨cs', h1, rfl⟩ := h
-      simpa [refRun, emitAll_cons] using ih k cs' _ h1
+      have h0 : prim.rej s .none = false := hacc ⟨s, .none⟩ (by simp)
+      simpa [refRun, emitAll_cons, call_acc prim o h0] using ih k cs' _ h1 (fun c hc => hacc c (by simp [hc]))
     | pct =>
       simp only [expectCalls, Option.map_eq_some_iff] at h
       obtain ⟨cs', h1, rfl⟩ := h
-      simpa [refRun, emitAll_cons] using ih k cs' _ h1
+      have h0 : prim.rej ['%', '%'] .none = false := hacc ⟨['%', '%'], .none⟩ (by simp)
+      simpa [refRun, emitAll_cons, call_acc prim o h0] using ih k cs' _ h1 (fun c hc => hacc c (by simp [hc]))
     | spec b c =>
       simp only [expectCalls] at h
       simp only [refRun]
@@ -125,15 +133,16 @@ theorem refRun_typed (ht : (∀ c ∈ intConvs, firing cfgNow c = [.cint]) ∧ (
           simp only [if_true, Option.map_eq_some_iff] at h
           obtain ⟨cs', h1, rfl⟩ := h
           rw [dispatch_now_show prim shw ht.2.2.2.2.2 _ a o (showCalls a) (hs a o)]
-          simpa [emitAll_append] using ih (k + 1) cs' _ h1
+          simpa [emitAll_append] using ih (k + 1) cs' _ h1 (fun c hc => hacc c (by simp [hc]))
         · simp only [hc, if_false] at h
           cases hv : specVal c a with
           | none => simp [hv] at h
           | some v =>
             simp only [hv, Option.map_eq_some_iff] at h
             obtain ⟨cs', h1, rfl⟩ := h
-            rw [dispatch_now_typed prim shw ht c _ a v hv o]
-            simpa [emitAll_cons] using ih (k + 1) cs' _ h1
+            have h0 : prim.rej ('%' :: (b ++ [c])) v = false := hacc ⟨'%' :: (b ++ [c]), v⟩ (by simp)
+            rw [dispatch_now_typed prim shw ht c _ a v hv o, call_acc prim o h0]
+            simpa [emitAll_cons] using ih (k + 1) cs' _ h1 (fun c hc => hacc c (by simp [hc]))
 
 /-- every specification that has an argument has one of its class (anything for `%$` and `%p`) -/
 def Typed (args : List Obj) : List Seg → Nat → Prop
@@ -143,7 +152,7 @@ def Typed (args : List Obj) : List Seg → Nat → Prop
 
 theorem allOk_of_typed (ht : (∀ c ∈ intConvs, firing cfgNow c = [.cint]) ∧ (∀ c ∈ fltConvs, firing cfgNow c = [.cfloat]) ∧
       firing cfgNow 'c' = [.cint] ∧ firing cfgNow 's' = [.cstr] ∧ firing cfgNow 'p' = [.obj] ∧ firing cfgNow '$' = [.show])
-    (hs : ∀ a o, (shw a o).2 = .ok) (args : List Obj) :
+    (hs : ∀ a o, (shw a o).2 = .ok) (hacc : ∀ frag v, prim.rej frag v = false) (args : List Obj) :
     ∀ (segs : List Seg) (k : Nat), Typed args segs k → AllOk cfgNow prim shw args segs k := by
   intro segs
   induction segs with
@@ -151,8 +160,8 @@ theorem allOk_of_typed (ht : (∀ c ∈ intConvs, firing cfgNow c = [.cint]) ∧
   | cons s r ih =>
     intro k h
     cases s with
-    | lit s => exact ih k h
-    | pct => exact ih k h
+    | lit s => exact ⟨hacc _ _, ih k h⟩
+    | pct => exact ⟨hacc _ _, ih k h⟩
     | spec b c =>
       refine ⟨fun a ha o => ?_, ih (k + 1) h.2⟩
       rcases h.1 a ha with hc | hv
@@ -168,6 +177,6 @@ theorem allOk_of_typed (ht : (∀ c ∈ intConvs, firing cfgNow c = [.cint]) ∧
         subst this
         rfl
       · obtain ⟨v, hv⟩ := Option.isSome_iff_exists.1 hv
-        rw [dispatch_now_typed prim shw ht c _ a v hv o]
+        rw [dispatch_now_typed prim shw ht c _ a v hv o, call_acc prim o (hacc _ _)]
 
 end Cello.Fmt
